@@ -18,6 +18,17 @@ def run(chk, tier):
                 'instance itself for by-value receivers); an owning handle (Rc/Arc) must not be dropped while a clone derived from it is '
                 'handed on; unmentioned default-bodied methods resolve to the default body before any fallback.')
     X.check_traits(chk, tier, chk.seed, {'C15'})
+    # R15.7 the helper that runs default bodies has the mock's own associated items (type-level witness, compiled against this tree, never run)
+    import tywit
+    try:
+        rs = tywit.run('c15_')
+    except tywit.TywitError as e:
+        chk.ob('R15.7', 'witness harness builds /repo', False, site='build', unrecognised=True, what='tywit build failed', found=str(e)[-800:])
+        rs = []
+    for r in rs:
+        chk.ob('R15.7', 'witness %s: %s' % (r['name'], 'must not type-check (%s)' % r['expect'] if r['expect'] != 'ok' else 'Unimock and DefaultImplDelegator agree on every associated const / type of a mocked trait (must compile)'), r['ok'], site='witness:%s' % r['name'],
+               what='witness %s: %s' % (r['name'], r['detail'][:120]), found=r['detail'], expected=r['expect'])
+    chk.floor('R15.7', 'associated-item witnesses', len(rs), 2)
     for cfg in configs(tier, thorough=('std', 'mocks', 'nostd-spin', 'nostd')):
         F = load(chk, cfg)
         E.eval_dyn_table(chk, F, 'R15.4', cfg)
@@ -74,9 +85,24 @@ def delegator_runtime(chk, F, rule, cfg):
     # Pin: cell
     pin = [f for f in F.fns.values() if f.name == 'to_delegator' and 'Pin' in (f.impl_of or {}).get('self_ty', '')]
     for fn in pin:
+        def on_cell(x):
+            return mentions(x, lambda y: y[0] == 'ref' and y[1][1][-1:] == (('f', 'default_impl_delegator_cell'),))
         for p in symex.Interp(F).run(fn):
-            ok = p.called(r'OnceCell::get_or_init$') and p.called(r'OnceCell::get_mut$')
-            chk.ob(rule, 'Pin receivers: the helper lives in the per-instance cell', ok, config=cfg, fn=fn, site='pin', what='Pin to_delegator calls %s' % [e.data[1].rsplit('::', 1)[-1] for e in p.calls()])
+            if p.outcome[0] != 'return':
+                continue
+            r = strip(p.outcome[1])
+            from_cell = mentions(r, lambda x: is_call(x, r'OnceCell::(get_mut|get|get_or_init)$') and on_cell(x))
+            init = any(on_cell(e.data[2][0]) for e in p.calls(r'OnceCell::get_or_init$'))
+            for e in p.calls(r'OnceCell::(set|try_insert)$'):
+                # filled by hand: the value stored is a helper built from a clone of this very mock
+                if on_cell(e.data[2][0]) and mentions(e.data[2][1], lambda x: is_call(x, r'DefaultImplDelegator::__from_unimock$') and is_call(strip(x[2][0]), r'<Unimock as core::clone::Clone>::clone$')):
+                    init = True
+            for d in p.decisions:
+                inner, t = L.truth_of(d)
+                if t is not None and is_call(inner, r'Option::(is_none|is_some)$') and mentions(inner, lambda x: is_call(x, r'OnceCell::get$') and on_cell(x)) and (inner[1].endswith('is_some') == t):
+                    init = True      # (found filled)
+            chk.ob(rule, 'Pin receivers: the helper lives in the per-instance cell', from_cell and init, config=cfg, fn=fn, site='pin', what='Pin to_delegator calls %s' % [e.data[1].rsplit('::', 1)[-1] for e in p.calls()],
+                   found={'returned from this instance\'s cell': from_cell, 'cell filled (or found filled) on this path': init})
 
 
 def _shared_on_path(F, p):
